@@ -566,10 +566,10 @@ class Interp(object):
                 if isinstance(nd, ast.Name) and isinstance(nd.ctx, ast.Store):
                     stored.add(nd.id)
         targets = set(nd.id for nd in ast.walk(st.target) if isinstance(nd, ast.Name))
-        for nm in stored:
-            if nm not in spec.havoc and nm not in targets and nm not in spec.scratch:
-                raise Unsupported("loop #%d of %s assigns local '%s' that the loop contract does not "
-                                  "havoc (contract/code shape mismatch)" % (ordinal, fq, nm), st)
+        # locals the body assigns that the loop contract does not name are treated as per-iteration temporaries
+        # (scratch): undefined at the start of every iteration and after the loop.  Sound: a read before the assignment,
+        # or after the loop, is an unsupported construct (undecided), never a silent value.
+        auto_scratch = [nm for nm in sorted(stored) if nm not in spec.havoc and nm not in targets and nm not in spec.scratch]
         mode = ctx.choose(2, "loop")
         # havoc
         for nm, kind in spec.havoc.items():
@@ -587,7 +587,7 @@ class Interp(object):
             self.raw_set(obj, fld, newv)
             ctx.log_write(obj, fld)
             allowed.add((id(obj), fld))
-        for nm in spec.scratch:
+        for nm in list(spec.scratch) + auto_scratch:
             env.locals[nm] = UNDEF
         ctx.assume(_b(n >= 0) if ops.is_sym(n) else True)
         if mode == 0:
